@@ -84,6 +84,16 @@ def big_chunking(seed, ln, rng):
     r = rng.random()
     if r < 0.3 or ln == 0:
         return f"G:{seed}:{ln}"
+    if rng.random() < 0.3:
+        # writes of mixed sizes around the buffer sizes in use (small after large, large after small)
+        pool = [1, 7, 100, 4095, 4096, 8191, 8192, 8193, 16383, 16384, 16385, 32768, 65535, 65536, 65537, 100000]
+        parts, off = [], 0
+        while off < ln:
+            l = min(rng.choice(pool), ln - off)
+            parts.append(f"G:{seed}:{l}:{off}"); off += l
+            if rng.random() < 0.1:
+                parts.append("-")
+        return ",".join(parts)
     if r < 0.55:
         step = rng.choice([4096, 8192, 65536, 100000])
     elif r < 0.8:
@@ -305,7 +315,8 @@ def codec_lines(rng: random.Random, n: int):
         r = rng.random()
         if r < 0.15: return b""
         if r < 0.8: return rand_bytes(rng, rng.choice([1, 2, 3, 8, 17]))
-        return rand_bytes(rng, rng.choice([100, 255, 256, 300]))
+        if r < 0.97: return rand_bytes(rng, rng.choice([100, 255, 256, 300]))
+        return rand_bytes(rng, rng.choice([65535, 65536, 65537, 70000]))      # past every 16-bit length
     def rsize():
         return rng.choice([0, 1, 255, 256, 2**32 - 1, 2**32, 2**63, 2**64 - 1, rng.randrange(2**64)])
     def enc_put(k, h, sz):
@@ -419,6 +430,13 @@ def range_cases(rng: random.Random, thorough: bool):
                 lines.append(f"range 6b {a} {b}")
         lines += ["close", "end"]
         cases.append("\n".join(lines) + "\n"); i += 1
+    # one blob above 1 MiB, ranges longer than 1 MiB and 2 MiB
+    for L in [3 * 2**20 + 17] + ([2**20 + 1, 5 * 2**20] if thorough else []):
+        lines = [f"case r{i}", "cfg kt=bytes n=100 sync=1", "open", f"put 6b G:{L % 200}:{L}", "size 6b"]
+        for a, b in [(0, 2**20), (0, 2**20 + 1), (5, 2**20 + 6), (1, 2**63), (0, 2**64 - 1), (2**20 - 1, L), (2**20, L + 1), (L - 2**20 - 1, L), (2 * 2**20, 2**32), (0, L)]:
+            lines.append(f"range 6b {a} {b}")
+        lines += ["close", "end"]
+        cases.append("\n".join(lines) + "\n"); i += 1
     return cases
 
 
@@ -497,6 +515,13 @@ def conc_case(name, rng: random.Random, seed=None):
     orph = rng.sample(contents + [b"orphan-only"], k=norph)
     for c in orph:
         lines.append(f"orphan {hexs(c)}")
+    # injected obstacles: a blob path that cannot be unlinked / renamed onto / read; failing checkpoints
+    if rng.random() < 0.2:
+        cand = [c for c in contents if c not in orph]
+        if cand:
+            lines.append(f"undeletable {hexs(rng.choice(cand))}")
+    if rng.random() < 0.06:
+        lines.append("blockckpt")
     nthreads = rng.choice([2, 2, 3, 3, 4])
     used_orphans = False
     for t in range(1, nthreads + 1):
@@ -548,9 +573,12 @@ def conc_fault_corpus():
     checkpoints that fail).  The failing call may return an error; nothing else may go wrong."""
     f = " ".join(["1"] * 4 + ["2"] * 22 + ["1"] * 6)
     return [
-        f"conc corpus_undeletable\ncfg kt=bytes n=100\nsetup put 6b31 58585858\nundeletable 58585858\nthread 1 put 6b33 5959\nthread 2 put 6b31 5959\nthread 2 remove 6b31\nfsched {f}\nend\n",
-        "conc corpus_undeletable_free\ncfg kt=bytes n=100\nsetup put 6b31 58585858\nundeletable 58585858\nthread 1 put 6b33 5959\nthread 2 put 6b31 5959\nthread 2 remove 6b31\nthread 3 get 6b33\nend\n",
-        f"conc corpus_blockckpt\ncfg kt=bytes n=1\nsetup put 6b31 58585858\nblockckpt\nthread 1 put 6b33 5959\nthread 2 put 6b32 5959\nthread 2 remove 6b32\nfsched {f}\nend\n",
+        f"conc corpus_undeletable\ncfg kt=bytes n=100\nsetup put 6b31 58585858\nundeletable 58585858\nthread 1 put 6b33 5959\nthread 2 put 6b31 5959\nthread 2 remove 6b31\nfsched {f}\nsched {f}\nend\n",
+        "conc corpus_undeletable_free\ncfg kt=bytes n=100\nsetup put 6b31 58585858\nundeletable 58585858\nthread 1 put 6b33 5959\nthread 2 put 6b31 5959\nthread 2 remove 6b31\nthread 3 get 6b33\nseed 7\nend\n",
+        f"conc corpus_blockckpt\ncfg kt=bytes n=1\nsetup put 6b31 58585858\nblockckpt\nthread 1 put 6b33 5959\nthread 2 put 6b32 5959\nthread 2 remove 6b32\nfsched {f}\nsched {f}\nend\n",
+        # a commit that fails at its rename while another transaction on the same key is in flight
+        f"conc corpus_blocked_rename\ncfg kt=bytes n=100\nundeletable 5959\nthread 1 put 6b31 5858\nthread 2 put 6b31 5959\nthread 2 remove 6b31\nthread 2 get 6b31\nfsched 1 1 1 2 2 2 2 2 1 1 1 1 1 1 1 2 2 2 2 2 2 2 2 2 2 2 2\nsched 1 1 1 2 2 2 2 2 1 1 1 1 1 1 1 2 2 2 2 2 2 2 2 2 2 2 2\nend\n",
+        "conc corpus_read_obstructed\ncfg kt=bytes n=100\nsetup put 6b31 58585858\nundeletable 58585858\nthread 1 get 6b31\nthread 1 size 6b31\nthread 2 put 6b31 5959\nseed 3\nend\n",
     ]
 
 
@@ -559,11 +587,19 @@ def race_cases(rng: random.Random, n: int):
     cases = ["race corpus_r1\n" + "\n".join("ev " + e for e in [
         "open a", "open b", "openn b 7", "clone a a2", "drop a", "open b", "drop a2", "open b", "drop b",
         "openstats c", "dropcas c", "open d", "openn d 9", "dropstats c", "open d", "drop d",
-        "spawn p1", "open e", "openn e 5", "kill p1", "open e", "drop e", "racethreads 6", "raceprocs 4", "open f"]) + "\nend\n"]
+        "spawn p1", "open e", "openn e 5", "kill p1", "open e", "drop e", "racethreads 6", "raceprocs 4", "open f"]) + "\nend\n",
+        # an open that has opened LOCK but not locked it yet, while the owner goes away and a third open arrives
+        "race corpus_r2\n" + "\n".join("ev " + e for e in [
+            "open a", "openfd b", "drop a", "open c", "lock b", "open d", "drop c", "open e", "drop e"]) + "\nend\n",
+        "race corpus_r3\n" + "\n".join("ev " + e for e in [
+            "openfd x", "openfd y", "lock y", "lock x", "open z", "drop y", "openfd w", "open v", "lock w", "drop v"]) + "\nend\n"]
     for i in range(n):
         evs, live, names, procs = ["open s0", "drop s0"], [], 0, []      # created with the default segment size
+        pend_slots = []
         for _ in range(rng.choice([6, 10, 14])):
             r = rng.random()
+            if pend_slots and rng.random() < 0.3:
+                evs.append(f"lock {pend_slots.pop(rng.randrange(len(pend_slots)))}"); continue
             if r < 0.35:
                 names += 1; s = f"s{names}"
                 kind = rng.choice(["open", "open", "openstats", "openn"])
@@ -580,10 +616,15 @@ def race_cases(rng: random.Random, n: int):
                 names += 1; evs.append(f"spawn p{names}"); procs.append(f"p{names}")
             elif r < 0.93 and procs:
                 p = procs.pop(rng.randrange(len(procs))); evs.append(f"kill {p}")
+            elif r < 0.95:
+                # a two-step open: its second half comes a few events later
+                names += 1; evs.append(f"openfd s{names}"); live.append(f"s{names}"); pend_slots.append(f"s{names}")
             elif r < 0.97:
                 evs.append(f"racethreads {rng.choice([2, 4, 8])}")
             else:
                 evs.append(f"raceprocs {rng.choice([2, 3])}")
+        for sl in pend_slots:
+            evs.append(f"lock {sl}")
         cases.append(f"race r{i}\n" + "\n".join("ev " + e for e in evs) + "\nend\n")
     return cases
 
